@@ -256,6 +256,14 @@ func (ex *Exec) equalValues(x, y Value) *Term {
 }
 
 func (ex *Exec) stringEq(a, b *SliceV) *Term {
+	if a.Obj != nil && a.Obj == b.Obj && a.Off == b.Off && a.Len == b.Len && samePath(a.Path, b.Path) {
+		return TTrue
+	}
+	if a.Obj != nil && b.Obj != nil && a.Obj != b.Obj && (a.Obj.Doc != nil || b.Obj.Doc != nil) {
+		// documents written by different operations are treated as different text (the caller
+		// then re-parses: a superset of the behaviours of comparing equal texts)
+		return TFalse
+	}
 	if la, ok := a.Len.ConstVal(); ok {
 		if lb, ok := b.Len.ConstVal(); ok && la != lb {
 			return TFalse
